@@ -7,7 +7,9 @@
 (* invariants are the predicates of Adapters.tla.                                    *)
 EXTENDS Adapters, Patterns, TLC
 
-CONSTANTS R, C, ORD
+CONSTANTS R, C, ORD,
+          SAMPLE,   \* 1: every pattern; k: every k-th mask (thorough 4x4 scope)
+          PSTEP     \* 1: every permutation of the unknowns for reorder; k: every k-th
 VARIABLES mask, ord, pi, pc, out
 vars == <<mask, ord, pi, pc, out>>
 
@@ -28,7 +30,7 @@ Sorted0 == MkCrs(R, C, mask, 0, FALSE)
 Perm == NthPerm([i \in 1..R |-> i - 1], pi)          \* a permutation of 0..R-1
 Scale == [i \in 1..R |-> IF i % 2 = 1 THEN 2 ELSE -1]
 
-Init == /\ mask \in Masks(R, C)
+Init == /\ mask \in {m \in Masks(R, C) : m % SAMPLE = 0}
         /\ ord \in [1..R -> 0..(Fact(C) - 1)] /\ \A i \in 1..R : ord[i] \in OrdsOf(mask, i - 1)
         /\ pi = 0
         /\ pc = "in" /\ out = <<>>
@@ -39,7 +41,7 @@ ZeroCopy == Step("tuple", "zerocopy", ZeroCopyView(A))
 Builder  == Step("zerocopy", "builder", BuilderView(A, 5 * R))
 \* the permutation of the unknowns is chosen when the reorder adapter is applied
 Reorder  == /\ R = C /\ pc = "builder" /\ pc' = "reorder" /\ UNCHANGED <<mask, ord>>
-            /\ \E p \in 0..(Fact(R) - 1) : pi' = p /\ LET P == NthPerm([i \in 1..R |-> i - 1], p) IN out' = ReorderView(A, P, InverseOf(P))
+            /\ \E p \in {q \in 0..(Fact(R) - 1) : q % PSTEP = 0} : pi' = p /\ LET P == NthPerm([i \in 1..R |-> i - 1], p) IN out' = ReorderView(A, P, InverseOf(P))
 Scaled   == R = C /\ Step("builder", "scaled", ScaledView(A, Scale))
 Next == Tuple \/ ZeroCopy \/ Builder \/ Reorder \/ Scaled
 NextRect == Tuple \/ ZeroCopy \/ Builder          \* rectangular scopes (AdaptersRect.cfg): no reorder / scaling
